@@ -298,14 +298,16 @@ Definition is_negative (A : option assum) (e : expr) : qr :=
   end.
 Definition is_nonnegative (A : option assum) (e : expr) : qr :=
   match e with
-  | ENum n => QT (if n_is_a_Complex n then TF else if n_is_negative n then TF else TT)
+  | ENum n => QT (if n_is_a_Complex n || n_is_nan n || n_is_complex n then TF
+                 else if n_is_negative n then TF else TT)
   | ESym _ | EDummy _ _ => sym_map A a_nonnegative e
   | EConst _ => QT TT
   | _ => if is_setbool e then QExn else QT TI
   end.
 Definition is_nonpositive (A : option assum) (e : expr) : qr :=
   match e with
-  | ENum n => QT (if n_is_a_Complex n then TF else if n_is_positive n then TF else TT)
+  | ENum n => QT (if n_is_a_Complex n || n_is_nan n || n_is_complex n then TF
+                 else if n_is_positive n then TF else TT)
   | ESym _ | EDummy _ _ => sym_map A a_nonpositive e
   | EConst _ => QT TF
   | _ => if is_setbool e then QExn else QT TI
@@ -349,7 +351,9 @@ Fixpoint q_positive (A : option assum) (fuel : nat) (e : expr) {struct fuel} : q
       | ESym _ | EDummy _ _ => sym_map A a_positive e
       | EConst _ => QT TT
       | EAdd c d =>
-          let ct := negb (n_is_negative c) in
+          (* coefficient positive: cannot be false; negative: cannot be true; neither and non-real
+             (Complex, zoo) or nan: cannot be true *)
+          let ct := negb (n_is_negative c) && negb (n_is_complex c || n_is_nan c) in
           let cf := negb (n_is_positive c) in
           pos_add_loop (q_positive A f) (is_negative A) d ct cf
       | _ => if is_setbool e then QExn else QT TI
@@ -502,13 +506,16 @@ Definition zero_sub_one (x : expr) : qr :=
 
 Section RealLoops.
   Variable vis : expr -> qr.
-  (* RealVisitor::bvisit(const Add&) *)
-  Fixpoint real_add_loop (l : list expr) (b : tribool) : qr :=
+  (* RealVisitor::bvisit(const Add&): a second non-real term makes the answer indeterminate *)
+  Fixpoint real_add_loop (l : list expr) (b : tribool) (non_real : nat) : qr :=
     match l with
     | [] => QT b
     | a :: r => qbind (vis a) (fun t =>
-                  let b' := andwk_tribool b t in
-                  if t_indet b' then QT b' else real_add_loop r b')
+                  let nr := if t_false t then S non_real else non_real in
+                  if t_false t && Nat.ltb 1 nr then QT TI
+                  else
+                    let b' := andwk_tribool b t in
+                    if t_indet b' then QT b' else real_add_loop r b' nr)
     end.
   Variable chk : expr -> expr -> qr.
   (* the loop of RealVisitor::bvisit(const Mul&) *)
@@ -552,7 +559,7 @@ Fixpoint q_real (A : option assum) (fuel : nat) (e : expr) {struct fuel} : qr :=
       | ENum n => QT (if n_is_a_Complex n || n_is_inf n || n_is_nan n then TF else TT)
       | ESym _ | EDummy _ _ => sym_set A a_real e
       | EConst nm => QT (if is_known_const nm then TT else TI)
-      | EAdd c d => real_add_loop (q_real A f) (add_args c d) TT
+      | EAdd c d => real_add_loop (q_real A f) (add_args c d) TT 0%nat
       | EMul c d =>
           let b := tri_of_bool (negb (n_is_complex c)) in
           real_mul_loop check_power d b (if t_false b then 1%nat else 0%nat)
@@ -733,20 +740,21 @@ Definition all_queries (A : option assum) (e : expr) : list qr :=
    is_algebraic A e; is_transcendental A e].
 
 (* ------------------------------------------------------------------ guards of the guarded theorems *)
-(* the literal is neither nan nor zoo: NonNegativeVisitor / NonPositiveVisitor answer true for both *)
+(* the literal is neither nan nor zoo (no longer needed by the theorems since the repair of
+   NonNegativeVisitor / NonPositiveVisitor; kept for the rule lemmas that mention it) *)
 Definition sign_guard (e : expr) : bool :=
   match e with
   | ENum NNaN => false
   | ENum (NInf d) => negb (d =? 0)%Z
   | _ => true
   end.
-(* PositiveVisitor::bvisit(Add) reads a Complex (or nan) coefficient as "neither positive nor negative"
-   and so can answer true: the coefficient must be an exact real, and the sum must have a term *)
+(* well-formedness of sums: an Add has at least one term (an empty sum with coefficient 0 would be
+   reported positive) *)
 Definition coef_real_exact (c : number) : bool :=
   match c with NInt _ | NRat _ _ => true | _ => false end.
 Fixpoint pos_guard (e : expr) : bool :=
   match e with
-  | EAdd c d => coef_real_exact c && negb (match d with [] => true | _ => false end)
+  | EAdd c d => negb (match d with [] => true | _ => false end)
                 && forallb (fun p => pos_guard (fst p)) d
   | _ => true
   end.
